@@ -1019,7 +1019,14 @@ func (e *Engine) resolveKey(mname string, k Value) (int, string) {
 			return i, kr.key
 		}
 	}
-	panic(pathEnd{kind: "infeasible", msg: "symbolic key outside the key universe of " + mname})
+	// different from every key seen so far: a new member of the universe (the fixpoint re-explores the
+	// threads that looked keys up before it was known)
+	t, ok := k.(*Term)
+	if !ok {
+		panic(engineErr("event mode: symbolic non-scalar key on the shared map %s is not modelled", mname))
+	}
+	ck := fmt.Sprintf("sym:t%d", t.ID)
+	return e.ev.reg.addMapKey(mname, ck, k), ck
 }
 
 func (e *Engine) sharedMap(m *MapVal) (string, bool) {
